@@ -40,6 +40,9 @@ type e2ePlan struct {
 	Shrink *e2eSil `json:"shrink,omitempty"`
 	// Mutate: the payload of message G is replaced in flight (adversarial peer)
 	Mutate *e2eMut `json:"mutate,omitempty"`
+	// Hold: message K of direction Dir is delivered Ms late; a slow acknowledgement makes the sender shrink
+	// its buffer size
+	Hold *e2eHold `json:"hold,omitempty"`
 	// CheckLeft: after both roles returned wait timeout+1s and count transfer goroutines still alive
 	CheckLeft bool `json:"checkleft,omitempty"`
 }
@@ -72,6 +75,12 @@ type e2eMut struct {
 type e2eSil struct {
 	Dir string `json:"dir"`
 	K   int    `json:"k"`
+}
+
+type e2eHold struct {
+	Dir string `json:"dir"`
+	K   int    `json:"k"`
+	Ms  int    `json:"ms"`
 }
 
 // e2eExec materialises the case under work (a fresh directory), runs it and emits the
@@ -147,6 +156,9 @@ func e2eExec(c *e2eCase, work string, tr *vTrace, logLines bool) (*e2eResult, ma
 	for i := range c.Plan.Faults {
 		f := c.Plan.Faults[i]
 		w.faults = append(w.faults, &f)
+	}
+	if c.Plan.Hold != nil {
+		w.holdDir, w.holdK, w.holdMs = c.Plan.Hold.Dir, c.Plan.Hold.K, c.Plan.Hold.Ms
 	}
 	if c.Plan.Silence != nil {
 		w.silenceDir, w.silenceK = c.Plan.Silence.Dir, c.Plan.Silence.K
